@@ -83,7 +83,7 @@ def gen_history(rng, tree, R, abs_sentinel, n_ops):
         if r < 0.28:
             ops.append({'op': 'lookup', 'p': islot(), 'name': nm()}); ni += 1
         elif r < 0.36:
-            ops.append({'op': 'open', 'i': islot(), 'flags': rng.choice([0, 1, 2, 0x201, 0x401, 0x801, 0x20000, 0x10000]), 'fuse_flags': 0}); nh += 1
+            ops.append({'op': 'open', 'i': islot(), 'flags': 0x800 | rng.choice([0, 1, 2, 0x201, 0x401, 0x20000, 0x10000]), 'fuse_flags': 0}); nh += 1
             if rng.random() < 0.8:
                 i = ops[-1]['i']; h = nh - 1
                 if rng.random() < 0.5: ops.append({'op': 'read', 'i': i, 'h': h, 'size': 64, 'off': 0, 'flags': ops[-1]['flags']})
@@ -112,6 +112,19 @@ def gen_history(rng, tree, R, abs_sentinel, n_ops):
         elif r < 0.96: ops.append({'op': 'rmdir', 'p': islot(), 'name': nm()})
         elif r < 0.98: ops.append({'op': 'setxattr', 'i': islot(), 'name': b'user.k', 'value': b'v', 'flags': 0})
         else: ops.append({'op': 'getxattr', 'i': islot(), 'name': b'user.k', 'size': 16})
+    # targeted tail: a device node and the FIFO are looked up and opened (must be refused: EBADF), the planted links are
+    # opened/truncated/chmod-ed through their inodes (must not reach their targets)
+    ops.append({'op': 'mknod', 'p': 0, 'name': b'devnode', 'mode': 0o020666, 'rdev': 0x103, 'umask': 0, 'uid': 0, 'gid': 0}); ni += 1
+    ops.append({'op': 'open', 'i': ni - 1, 'flags': 0x800, 'fuse_flags': 0}); nh += 1
+    ops.append({'op': 'lookup', 'p': 0, 'name': b'fifo'}); ni += 1
+    ops.append({'op': 'open', 'i': ni - 1, 'flags': 0x802, 'fuse_flags': 0}); nh += 1
+    for slot in (3, 4, 5):
+        ops.append({'op': 'open', 'i': slot, 'flags': 0x801 | 0x200, 'fuse_flags': 0}); nh += 1
+        ops.append({'op': 'setattr', 'i': slot, 'h': None, 'valid': 8, 'mode': 0, 'uid': 0, 'gid': 0, 'size': 0})
+        ops.append({'op': 'setattr', 'i': slot, 'h': None, 'valid': 1, 'mode': 0o777, 'uid': 0, 'gid': 0, 'size': 0})
+    ops.append({'op': 'lookup', 'p': 0, 'name': b'..'}); ni += 1
+    ops.append({'op': 'lookup', 'p': 1, 'name': b'..'}); ni += 1
+    ops.append({'op': 'lookup', 'p': ni - 1, 'name': b'..'}); ni += 1
     return ops
 
 def replay(path):
